@@ -675,33 +675,61 @@ def writeAll (w : LineWriter → List Nat → Outcome (LineWriter × Nat)) (h : 
   | [] => .ok (h, total)
   | p :: ps => (w h p).bind fun (h', n) => writeAll w h' (total + n) ps
 
-/-- hexpairwriter.New: `buf: make([]byte, width*200+1)`, never grown -/
+/-- hexpairwriter.New: `buf: make([]byte, width*200+1)` -/
 def hexpairNew (width start : Nat) : LineWriter := ⟨width, start, 0, width * 200 + 1, 0⟩
 
-/-- the loop of hexpairwriter.Write (hexpairwriter.go:78-103) -/
-def hexpairLoop (h : LineWriter) (written : Nat) : List Nat → Outcome (LineWriter × Nat)
+/-- the loop of hexpairwriter.Write (hexpairwriter.go:75-110). `grow` = the capacity check added by
+    `fix: hexpairwriter: grow line buffer …` (need := bufOffset+len(s)+1 > len(buf) ⇒ make(need*2));
+    without it the buffer keeps its initial size -/
+def hexpairLoopWith (grow : Bool) (h : LineWriter) (written : Nat) : List Nat → Outcome (LineWriter × Nat)
   | [] => .ok (h, written)
   | c :: rest =>
     let lineOffset := h.offset % h.width
-    (goSliceTo h.bufLen h.bufOffset).bind fun _ =>        -- copy(h.buf[h.bufOffset:], s) (copy itself truncates)
+    let need := h.bufOffset + c + 1
+    (if grow && need > h.bufLen then (goSliceTo h.bufLen h.bufOffset).bind fun _ => .ok (need * 2) else .ok h.bufLen).bind fun bufLen =>
+    (goSliceTo bufLen h.bufOffset).bind fun _ =>          -- copy(h.buf[h.bufOffset:], s) (copy itself truncates)
     let bo := h.bufOffset + c
-    (goIndex h.bufLen bo).bind fun _ =>                   -- h.buf[h.bufOffset] = ' '
+    (goIndex bufLen bo).bind fun _ =>                     -- h.buf[h.bufOffset] = ' '
     let bo := bo + 1
     if !rest.isEmpty && lineOffset == h.width - 1 then
-      (goSliceTo h.bufLen bo).bind fun _ =>
-      hexpairLoop { h with bufOffset := 0, offset := h.offset + 1 } (written + bo) rest
+      (goSliceTo bufLen bo).bind fun _ =>
+      hexpairLoopWith grow { h with bufLen := bufLen, bufOffset := 0, offset := h.offset + 1 } (written + bo) rest
     else if rest.isEmpty then
-      (goSliceTo h.bufLen (bo - 1)).bind fun _ =>
-      hexpairLoop { h with bufOffset := 0, offset := h.offset + 1 } (written + bo - 1) rest
+      (goSliceTo bufLen (bo - 1)).bind fun _ =>
+      hexpairLoopWith grow { h with bufLen := bufLen, bufOffset := 0, offset := h.offset + 1 } (written + bo - 1) rest
     else
-      hexpairLoop { h with bufOffset := bo, offset := h.offset + 1 } written rest
+      hexpairLoopWith grow { h with bufLen := bufLen, bufOffset := bo, offset := h.offset + 1 } written rest
 
-def hexpairWrite (h : LineWriter) (p : List Nat) : Outcome (LineWriter × Nat) :=
+def hexpairWriteWith (grow : Bool) (h : LineWriter) (p : List Nat) : Outcome (LineWriter × Nat) :=
   if h.width == 0 then .panic "runtime error: integer divide by zero" else
   let pad := (h.start - h.offset) * 3
   let h := { h with offset := max h.offset h.start }
   (if h.offset > h.start then (goIndex h.bufLen 0).bind fun _ => .ok { h with bufOffset := 1 } else .ok h).bind fun h =>
-  hexpairLoop h pad p
+  hexpairLoopWith grow h pad p
+
+/-- the code as it is -/
+def hexpairWrite := hexpairWriteWith true
+/-- before the fix: a fixed buffer -/
+def hexpairWriteOld := hexpairWriteWith false
+
+/-! ## byte_colors ranges (decorator.go:77-83): `for i := max(r[0],0); i <= min(r[1],255); i++` -/
+
+/-- number of iterations of the loop over one range; the old loop `for i := r[0]; i <= r[1]; i++`
+    ran hi-lo+1 times and, with hi = MaxInt64, for ever (i wraps around and stays ≤ hi) -/
+def byteColorIters (lo hi : Int) : Nat := (min hi 255 - max lo 0 + 1).toNat
+def byteColorLoop (lo hi : Int) : Outcome Nat := .ok (byteColorIters lo hi)
+def byteColorLoopOld (lo hi : Int) : Outcome Nat :=
+  if hi ≥ maxInt64 && lo ≤ hi then .resource "the loop variable wraps around: never terminates"
+  else if hi - lo + 1 > 4294967296 then .resource "more than 2^32 iterations"
+  else .ok (hi - lo + 1).toNat
+
+/-- does the (clamped) range colour byte b -/
+def byteInRange (lo hi : Int) (b : Nat) : Bool := decide (max lo 0 ≤ (b : Int)) && decide ((b : Int) ≤ min hi 255)
+
+/-- the entry (index) that colours byte b: the last one with a covering range; none = default colour -/
+def byteColorEntry (entries : List (List (Int × Int))) (b : Nat) : Option Nat :=
+  let idx := (List.range entries.length).zip entries
+  (idx.filter fun (_, rs) => rs.any fun (lo, hi) => byteInRange lo hi b).getLast?.map (·.1)
 
 /-! ## _stdio_read (interp.go:568-595): `buf := make([]byte, l)` with the caller's length -/
 
